@@ -59,13 +59,33 @@ Definition single_step (o : op) : bool :=
   | OScan c => false
   end.
 
+Definition op_key (o : op) : option key :=
+  match o with OPut k _ | OGet k | ODel k | OExists k => Some k | OScan _ => None end.
+Definition has_scan (h : list hop) : bool :=
+  existsb (fun x => match h_op x with OScan _ => true | _ => false end) h.
+Fixpoint dedup_keys (l : list key) : list key :=
+  match l with
+  | [] => []
+  | k :: r => if existsb (key_eqb k) r then dedup_keys r else k :: dedup_keys r
+  end.
+Definition keys_of (h : list hop) : list key :=
+  dedup_keys (flat_map (fun x => match op_key (h_op x) with Some k => [k] | None => [] end) h).
+Definition sub_history (h : list hop) (k : key) : list hop :=
+  filter (fun x => match op_key (h_op x) with Some k' => key_eqb k k' | None => false end) h.
+(* Independent re-search.  Without scans every operation concerns one key, and a history is
+   linearizable iff each key's sub-history is (locality, Herlihy & Wing 1990, Thm 1): search per key.
+   With scans the whole history is searched (the harness keeps those at 8 operations or fewer). *)
+Definition research (h : list hop) : bool :=
+  if has_scan h then search (length h) [] h
+  else forallb (fun k => let s := sub_history h k in search (length s) [] s) (keys_of h).
+
 (* (the harness found a witness, history: in witness order if found, else in invocation order) *)
 Definition lin_case := (bool * list hop)%type.
 Definition check_lin (c : lin_case) : N :=
   let '(found, h) := c in
   if found then (if witness_ok h then V_OK else V_MISMATCH)
-  else if (12 <? N.of_nat (length h)) then 9          (* too large for the in-Coq search *)
-  else if search (length h) [] h then V_MISMATCH       (* the harness's search missed a linearization *)
+  else if (if has_scan h then 8 <? N.of_nat (length h) else 12 <? N.of_nat (length h)) then 9   (* too large for the in-Coq search *)
+  else if research h then V_MISMATCH                    (* the harness's search missed a linearization *)
   else
     (* not linearizable: known classes only where the step lists say the operations are multi-step *)
     if negb gen_emb_locked && forallb (fun x => N.eqb (op_class (h_op x)) 0) h
